@@ -44,7 +44,7 @@ pub fn judge(script: &Script, obs: &Observation) -> CaseResult {
     // is the end of stream on a response boundary?
     let eof_clean = obs.eof_at.is_none_or(|k| {
         let k = k.min(obs.outbox.len());
-        k >= sim::GREETING.len() && refdec::decode(&obs.outbox[sim::GREETING.len()..k]).terminal == vec![Terminal::CleanEof]
+        k >= script.greeting_len() && refdec::decode(&obs.outbox[script.greeting_len()..k]).terminal == vec![Terminal::CleanEof]
     });
     let non_clean = obs.read_err_seen || obs.write_err_seen || garbage_struck || (obs.eof_seen && !eof_clean);
     if let Some(Fault::Garbage(g)) = &fault {
@@ -229,13 +229,13 @@ fn offsets_part() -> Box<dyn crate::core::Part> {
             let first = sim::run(base);
             let n = first.outbox.len().min(3000);
             let mut execs = 1;
-            for k in sim::GREETING.len()..=n {
+            for k in base.greeting_len()..=n {
                 for read_err in [false, true] {
                     if read_err && k % 4 != 0 {
                         continue;
                     }
                     let mut s = base.clone();
-                    let f = if read_err { Fault::ReadErrorAfter(k - sim::GREETING.len()) } else { Fault::EofAt(k) };
+                    let f = if read_err { Fault::ReadErrorAfter(k - base.greeting_len()) } else { Fault::EofAt(k) };
                     s.steps.insert(0, Step::Fault(f));
                     let obs = sim::run(&s);
                     execs += 1;
